@@ -284,6 +284,14 @@ def run(tier, seed):
     # sends modify()-based operations into their retry loop while other operations are queued behind
     sel2 = [dict(c, fault_kinds=["refuse-round"]) for c in fcases + dcases if any(op in ("append", "add_a", "add_b", "del_c") for op in c["ops"])]
     res.merge(grid.split_tasks(common.pmap, chunk, sel2 if tier != "quick" else sel2[::2], (seed,), 0, 1 if tier == "quick" else 2))
+    n4 = 0
+    if tier != "quick":
+        # up to FOUR concurrently requested operations (the statement's bound) at the canonical schedule
+        f4 = [{"kind": "file", "ops": list(ops)} for ops in itertools.product(FILE_OPS, repeat=4)
+              if not any(op == "uploadC" and any(p in writers for p in ops[:i]) for i, op in enumerate(ops))]
+        d4 = [{"kind": "dir", "ops": list(ops)} for ops in itertools.product(DIR_OPS, repeat=4)]
+        n4 = len(f4) + len(d4)
+        res.merge(grid.split_tasks(common.pmap, chunk, f4 + d4, (seed,), 0, 0))
     cov = {
         "states": res.counts.get("executions", 0),
         "transitions": res.counts.get("transitions", 0),
@@ -291,7 +299,7 @@ def run(tier, seed):
         "distinct_result_vectors": len(res.distinct),
         "deviation_bound_completed": d,
         "fault_bound_completed": 1,
-        "rule": "all %d file and %d directory operation sequences of length %d at d<=%d (and at d<=%d with several answers per reactor turn); %d file sequences at f<=1 (error / disconnect on any call)" % (len(fcases), len(dcases), r, d, d - 1, len(sel)),
+        "rule": "all %d file and %d directory operation sequences of length %d at d<=%d (and at d<=%d with several answers per reactor turn); %d file sequences at f<=1 (error / disconnect on any call)" % (len(fcases), len(dcases), r, d, d - 1, len(sel)) + ("; all %d sequences of length 4 at the canonical schedule" % n4 if n4 else ""),
     }
     return res, cov
 
